@@ -1,1 +1,831 @@
-(* Front/LexProofs.v -- stub, to be filled *)
+(* Front/LexProofs.v -- layout specification (Layout section) and proofs for C13.
+
+   Part 1 (Layout): token-level printer `render`, the side condition `lex_safe` of X.680 clause 12,
+                    the expected token list `expect` (contents and positions).
+   Part 2: a count-free, text-level view `Rlc` of the line-structured tokenizer and one-step lemmas.
+   Part 3: gap items, block-comment bodies, text items; main induction; top-level theorems.        *)
+From A1 Require Import Front.Lex.
+From Coq Require Import ZifyBool ZifyNat ZifyN Lia.
+Local Open Scope N_scope.
+Local Arguments N.add : simpl never.
+Local Arguments N.sub : simpl never.
+Local Arguments Z.add : simpl never.
+Local Arguments Z.sub : simpl never.
+
+(* ================================================================== *)
+(* Part 1: Layout                                                      *)
+(* ================================================================== *)
+
+Inductive ptoken : Type := PText (s : list N) | PSep (c : N).
+
+(* content of a block comment: characters, line ends, nested opens / closes *)
+Inductive citem : Type := CChar (c : N) | CNl | CCrNl | COpen | CClose.
+
+(* the seven kinds of gap items: space, tab, CR LF, LF, line comment (ended by LF or CR LF),
+   block comment, nested block comment (a GBlock whose body has COpen/CClose) *)
+Inductive gitem : Type :=
+| GSpace | GTab | GCrLf | GLf
+| GLine (c : list N) (crlf : bool)
+| GBlock (body : list citem).
+Definition gap : Type := list gitem.
+
+Definition render_citem (i : citem) : list N :=
+  match i with
+  | CChar c => [c] | CNl => [10] | CCrNl => [13; 10] | COpen => [47; 42] | CClose => [42; 47]
+  end.
+Definition render_body (b : list citem) : list N := flat_map render_citem b.
+Definition render_gitem (i : gitem) : list N :=
+  match i with
+  | GSpace => [32] | GTab => [9] | GCrLf => [13; 10] | GLf => [10]
+  | GLine c crlf => 45 :: 45 :: c ++ (if crlf then [13; 10] else [10])
+  | GBlock b => 47 :: 42 :: render_body b ++ [42; 47]
+  end.
+Definition render_gap (g : gap) : list N := flat_map render_gitem g.
+Definition render_tok (t : ptoken) : list N := match t with PText s => s | PSep c => [c] end.
+
+(* gs: the gap after each token *)
+Fixpoint render_items (ts : list ptoken) (gs : list gap) : list N :=
+  match ts, gs with
+  | t :: ts', g :: gs' => render_tok t ++ render_gap g ++ render_items ts' gs'
+  | _, _ => []
+  end.
+(* layout  g0 t1 g1 t2 g2 ... tn gn *)
+Definition render (ts : list ptoken) (gs : list gap) : list N :=
+  match gs with [] => [] | g0 :: gs' => render_gap g0 ++ render_items ts gs' end.
+
+(* ---- where things are: 0-based (line, column) after reading a string ---- *)
+Definition adv1 (lc : N * N) (c : N) : N * N :=
+  if c =? 10 then (fst lc + 1, 0) else (fst lc, snd lc + 1).
+Definition advance (lc : N * N) (s : list N) : N * N := fold_left adv1 s lc.
+
+Fixpoint positions_items (lc : N * N) (ts : list ptoken) (gs : list gap) : list (N * N) :=
+  match ts, gs with
+  | t :: ts', g :: gs' =>
+      (fst lc + 1, snd lc + 1)
+        :: positions_items (advance (advance lc (render_tok t)) (render_gap g)) ts' gs'
+  | _, _ => []
+  end.
+(* 1-based line and column at which each item starts in `render ts gs` *)
+Definition positions (ts : list ptoken) (gs : list gap) : list (N * N) :=
+  match gs with [] => [] | g0 :: gs' => positions_items (advance (0, 0) (render_gap g0)) ts gs' end.
+
+(* ---- side conditions ---- *)
+Definition is_nil {A} (l : list A) : bool := match l with [] => true | _ => false end.
+
+Definition text_char (c : N) : bool :=
+  negb (is_control c) && negb (c =? 32) && negb (is_sep_char c).
+
+(* no a immediately followed by b *)
+Fixpoint no_pair (a b : N) (s : list N) : bool :=
+  match s with
+  | [] => true
+  | x :: t => negb ((x =? a) && opt_eqb (hd_error t) b) && no_pair a b t
+  end.
+
+(* a text item: non-empty, made of characters that are neither white-space/control nor separators,
+   contains neither "--" nor "/*", and does not end in '-' (X.680 12.3) *)
+Definition text_okb (s : list N) : bool :=
+  negb (is_nil s) && forallb text_char s && no_pair 45 45 s && no_pair 47 42 s
+  && negb (last s 0 =? 45).
+
+Definition tok_okb (t : ptoken) : bool :=
+  match t with PText s => text_okb s | PSep c => is_sep_char c end.
+
+Definition cchar_ok (c : N) : bool :=
+  negb (c =? 42) && negb (c =? 47) && negb (c =? 10) && negb (c =? 13).
+
+(* body of a block comment read at nesting depth d (>= 1): balanced, never closes the outer comment,
+   nesting below the i32 limit of `nest_lvl`, characters other than '*', '/', CR, LF *)
+Fixpoint body_ok (d : Z) (b : list citem) : bool :=
+  match b with
+  | [] => (d =? 1)%Z
+  | CChar c :: b' => cchar_ok c && body_ok d b'
+  | CNl :: b' => body_ok d b'
+  | CCrNl :: b' => body_ok d b'
+  | COpen :: b' => (d <? I32_MAX)%Z && body_ok (d + 1)%Z b'
+  | CClose :: b' => (2 <=? d)%Z && body_ok (d - 1)%Z b'
+  end.
+
+Definition lchar_ok (c : N) : bool := negb (c =? 10) && negb (c =? 13).
+
+Definition gitem_okb (i : gitem) : bool :=
+  match i with
+  | GLine c _ => forallb lchar_ok c
+  | GBlock b => body_ok 1 b
+  | _ => true
+  end.
+Definition gap_okb (g : gap) : bool := forallb gitem_okb g.
+
+Definition is_cnl (i : citem) : bool := match i with CNl | CCrNl => true | _ => false end.
+Definition has_nl (b : list citem) : bool := existsb is_cnl b.
+(* every gap item separates: white-space, line ends, line comments and (since repair 58b7ab0 of the
+   tokenizer) block comments all push the pending token *)
+Definition iflush (i : gitem) : bool := true.
+Definition gflush (g : gap) : bool := existsb iflush g.
+
+Definition is_text (t : ptoken) : bool := match t with PText _ => true | PSep _ => false end.
+
+(* the gaps lying between two text items (gs = gap after each token) *)
+Fixpoint tt_gaps (ts : list ptoken) (gs : list gap) : list gap :=
+  match ts, gs with
+  | t :: ts', g :: gs' =>
+      (if is_text t && match ts' with t2 :: _ => is_text t2 | [] => false end then [g] else [])
+        ++ tt_gaps ts' gs'
+  | _, _ => []
+  end.
+
+(* X.680 12.1: one gap per boundary (plus a leading one); items well formed; two adjacent text items
+   are separated by at least one white-space or comment *)
+Definition lex_safeb (ts : list ptoken) (gs : list gap) : bool :=
+  (length gs =? S (length ts))%nat && forallb tok_okb ts && forallb gap_okb gs
+  && forallb (fun g => negb (is_nil g)) (tt_gaps ts (tl gs)).
+Definition lex_safe (ts : list ptoken) (gs : list gap) : Prop := lex_safeb ts gs = true.
+
+(* ---- expected result ---- *)
+Definition mk_tok (lc : N * N) (t : ptoken) : token :=
+  match t with
+  | PText s => Text (fst lc + 1) (snd lc + 1) s
+  | PSep c => Separator (fst lc + 1) (snd lc + 1) c
+  end.
+Fixpoint expect_items (lc : N * N) (ts : list ptoken) (gs : list gap) : list token :=
+  match ts, gs with
+  | t :: ts', g :: gs' =>
+      mk_tok lc t :: expect_items (advance (advance lc (render_tok t)) (render_gap g)) ts' gs'
+  | _, _ => []
+  end.
+Definition expect (ts : list ptoken) (gs : list gap) : list token :=
+  match gs with [] => [] | g0 :: gs' => expect_items (advance (0, 0) (render_gap g0)) ts gs' end.
+
+Definition strip (t : token) : ptoken :=
+  match t with Text _ _ s => PText s | Separator _ _ c => PSep c end.
+Definition loc (t : token) : N * N := (tok_line t, tok_column t).
+
+Lemma strip_expect_items : forall ts gs lc, length gs = length ts ->
+  map strip (expect_items lc ts gs) = ts.
+Proof.
+  induction ts as [|t ts IH]; intros [|g gs] lc Hl; cbn in *; try discriminate; try reflexivity.
+  f_equal; [destruct t; reflexivity | apply IH; congruence].
+Qed.
+
+Lemma loc_expect_items : forall ts gs lc,
+  map loc (expect_items lc ts gs) = positions_items lc ts gs.
+Proof.
+  induction ts as [|t ts IH]; intros [|g gs] lc; cbn; try reflexivity.
+  f_equal; [destruct t; reflexivity | apply IH].
+Qed.
+
+(* ================================================================== *)
+(* Part 2: text-level view of the line-structured tokenizer            *)
+(* ================================================================== *)
+
+Lemma emit_nil : forall r, emit [] r = r.
+Proof. intros [[[p n] o]| |]; reflexivity. Qed.
+
+Lemma emit_emit : forall a b r, emit a (emit b r) = emit (a ++ b) r.
+Proof. intros a b [[[p n] o]| |]; cbn; try reflexivity. now rewrite app_assoc. Qed.
+
+(* lines_loop with the last-line test phrased on the remaining lines *)
+Fixpoint lines_loop2 (m : mode) (line_0 : N) (previous : option token) (nest_lvl : Z)
+         (ls : list (list N)) {struct ls} : res lstate :=
+  match ls with
+  | [] => Ok (previous, nest_lvl, [])
+  | l :: ls' =>
+      match line_loop m (is_nil ls') line_0 0 previous nest_lvl l with
+      | Ok (p, n, out) => emit (out ++ push_opt p) (lines_loop2 m (line_0 + 1) None n ls')
+      | Err e => Err e
+      | Panic p => Panic p
+      end
+  end.
+
+Lemma lines_loop_eq : forall m ls count line_0 p n,
+  count = line_0 + N.of_nat (length ls) ->
+  lines_loop m count line_0 p n ls = lines_loop2 m line_0 p n ls.
+Proof.
+  induction ls as [|l ls IH]; intros count line_0 p n Hc; [reflexivity|].
+  cbn [lines_loop lines_loop2].
+  replace (line_0 =? count - 1) with (is_nil ls).
+  2:{ cbn [length] in Hc. destruct ls; cbn [is_nil length] in *; lia. }
+  destruct (line_loop m (is_nil ls) line_0 0 p n l) as [[[p' n'] o]| |]; try reflexivity.
+  rewrite IH; [reflexivity|]. cbn [length] in Hc. lia.
+Qed.
+
+Definition fin (m : mode) (line : N) (r : res lstate) (ls : list (list N)) : res lstate :=
+  match r with
+  | Ok (p', n', out) => emit (out ++ push_opt p') (lines_loop2 m (line + 1) None n' ls)
+  | Err e => Err e
+  | Panic q => Panic q
+  end.
+
+Lemma fin_emit : forall m line o r ls, fin m line (emit o r) ls = emit o (fin m line r ls).
+Proof.
+  intros m line o [[[p n] o']| |] ls; cbn; try reflexivity.
+  rewrite emit_emit. now rewrite app_assoc.
+Qed.
+
+(* the tokenizer positioned at 0-based (line, column) = lc in front of the remaining text s *)
+Definition Rlc (m : mode) (lc : N * N) (p : option token) (n : Z) (s : list N) : res lstate :=
+  fin m (fst lc)
+      (line_loop m (is_nil (snd (split_lines s))) (fst lc) (snd lc) p n (fst (split_lines s)))
+      (snd (split_lines s)).
+
+Definition finish (r : res lstate) : res (list token) :=
+  match r with
+  | Ok (p, _, out) => Ok (out ++ push_opt p)
+  | Err e => Err e
+  | Panic p => Panic p
+  end.
+
+Lemma lines_loop2_Rlc : forall m line n t,
+  lines_loop2 m line None n (lines_of t) = Rlc m (line, 0) None n t.
+Proof. intros m line n [|c t]; reflexivity. Qed.
+
+Lemma tokenize_Rlc : forall m s, tokenize m s = finish (Rlc m (0, 0) None 0%Z s).
+Proof.
+  intros m s. unfold tokenize.
+  rewrite lines_loop_eq by lia. rewrite lines_loop2_Rlc. reflexivity.
+Qed.
+
+(* ---- str::lines, one character at a time ---- *)
+Lemma split_cons : forall c t, c <> 10 -> (c = 13 -> hd_error t <> Some 10) ->
+  split_lines (c :: t) = (c :: fst (split_lines t), snd (split_lines t)).
+Proof.
+  intros c t H10 H13. cbn [split_lines].
+  replace (c =? 10) with false by lia.
+  destruct t as [|c2 t2]; [reflexivity|].
+  destruct ((c =? 13) && (c2 =? 10)) eqn:E; [|reflexivity].
+  exfalso. apply andb_prop in E as [E1 E2].
+  apply N.eqb_eq in E1, E2. subst. now apply H13.
+Qed.
+
+Lemma split_cons' : forall c t, c <> 10 -> c <> 13 ->
+  split_lines (c :: t) = (c :: fst (split_lines t), snd (split_lines t)).
+Proof. intros. apply split_cons; [assumption|contradiction]. Qed.
+
+Lemma split_nl : forall t, split_lines (10 :: t) = ([], lines_of t).
+Proof. reflexivity. Qed.
+Lemma split_crnl : forall t, split_lines (13 :: 10 :: t) = ([], lines_of t).
+Proof. reflexivity. Qed.
+
+Lemma split_app : forall a t, forallb lchar_ok a = true ->
+  split_lines (a ++ t) = (a ++ fst (split_lines t), snd (split_lines t)).
+Proof.
+  induction a as [|c a IH]; intros t H; cbn [app].
+  - now destruct (split_lines t).
+  - cbn [forallb] in H. apply andb_prop in H as [Hc Ha]. unfold lchar_ok in Hc.
+    rewrite split_cons' by lia. rewrite IH by assumption. reflexivity.
+Qed.
+
+Definition peek (t : list N) : option N := hd_error (fst (split_lines t)).
+Definition is_last (t : list N) : bool := is_nil (snd (split_lines t)).
+
+Lemma peek_cons : forall c t, c <> 10 -> c <> 13 -> peek (c :: t) = Some c.
+Proof. intros. unfold peek. now rewrite split_cons'. Qed.
+
+Lemma peek_cases : forall t, peek t = None \/ peek t = hd_error t.
+Proof.
+  intros [|c t]; [now left|].
+  destruct (N.eq_dec c 10) as [->|H10]; [now left|].
+  destruct (N.eq_dec c 13) as [->|H13].
+  - destruct t as [|c2 t2]; [now right|].
+    destruct (N.eq_dec c2 10) as [->|H2]; [now left|].
+    right. unfold peek. rewrite split_cons; [reflexivity|lia|]. cbn. congruence.
+  - right. now rewrite peek_cons.
+Qed.
+
+Lemma peek_sub : forall t x, opt_eqb (peek t) x = true -> opt_eqb (hd_error t) x = true.
+Proof. intros t x H. destruct (peek_cases t) as [E|E]; rewrite E in H; [discriminate|assumption]. Qed.
+
+Lemma lines_of_cons_not_nil : forall s, s <> [] -> is_nil (lines_of s) = false.
+Proof. intros [|c s] H; [congruence|reflexivity]. Qed.
+
+(* ---- one-step lemmas ---- *)
+Lemma line_loop_cons : forall m ll line col p n c rest,
+  line_loop m ll line col p n (c :: rest) =
+  match step m ll line col p n c (hd_error rest) with
+  | Fail q => Panic q
+  | Break => Ok (p, n, [])
+  | Continue sk p' n' out =>
+      emit out
+        (if sk then
+           match rest with
+           | _ :: rest' => line_loop m ll line (col + 2) p' n' rest'
+           | [] => Ok (p', n', [])
+           end
+         else line_loop m ll line (col + 1) p' n' rest)
+  end.
+Proof. reflexivity. Qed.
+
+Lemma adv1_other : forall lc c, c <> 10 -> adv1 lc c = (fst lc, snd lc + 1).
+Proof. intros. unfold adv1. now replace (c =? 10) with false by lia. Qed.
+
+Lemma Rlc_step1 : forall m lc p n c t p' n' out, c <> 10 -> c <> 13 ->
+  step m (is_last t) (fst lc) (snd lc) p n c (peek t) = Continue false p' n' out ->
+  Rlc m lc p n (c :: t) = emit out (Rlc m (adv1 lc c) p' n' t).
+Proof.
+  intros m lc p n c t p' n' out H10 H13 Hs. unfold Rlc.
+  rewrite split_cons' by assumption. cbn [fst snd].
+  rewrite line_loop_cons. unfold is_last, peek in Hs. rewrite Hs.
+  rewrite fin_emit. rewrite adv1_other by assumption. reflexivity.
+Qed.
+
+Lemma Rlc_step2 : forall m lc p n c c2 t p' n' out, c <> 10 -> c <> 13 -> c2 <> 10 -> c2 <> 13 ->
+  (forall ll, step m ll (fst lc) (snd lc) p n c (Some c2) = Continue true p' n' out) ->
+  Rlc m lc p n (c :: c2 :: t) = emit out (Rlc m (adv1 (adv1 lc c) c2) p' n' t).
+Proof.
+  intros m lc p n c c2 t p' n' out H10 H13 H210 H213 Hs. unfold Rlc.
+  rewrite (split_cons' c) by assumption. rewrite (split_cons' c2) by assumption. cbn [fst snd].
+  rewrite line_loop_cons. cbn [hd_error]. rewrite Hs.
+  rewrite fin_emit. rewrite !adv1_other by assumption. cbn [fst snd].
+  replace (snd lc + 1 + 1) with (snd lc + 2) by lia. reflexivity.
+Qed.
+
+Lemma Rlc_nl : forall m lc p n t,
+  Rlc m lc p n (10 :: t) = emit (push_opt p) (Rlc m (adv1 lc 10) None n t).
+Proof.
+  intros. unfold Rlc at 1. rewrite split_nl. cbn [fst snd line_loop fin app].
+  rewrite lines_loop2_Rlc. reflexivity.
+Qed.
+
+Lemma Rlc_crnl : forall m lc p n t,
+  Rlc m lc p n (13 :: 10 :: t) = emit (push_opt p) (Rlc m (adv1 (adv1 lc 13) 10) None n t).
+Proof.
+  intros. unfold Rlc at 1. rewrite split_crnl. cbn [fst snd line_loop fin app].
+  rewrite lines_loop2_Rlc. reflexivity.
+Qed.
+
+Lemma Rlc_nil : forall m lc p n, Rlc m lc p n [] = Ok (None, n, push_opt p).
+Proof. intros. unfold Rlc. cbn. now rewrite app_nil_r. Qed.
+
+(* ================================================================== *)
+(* Part 3a: what one iteration does, per kind of character             *)
+(* ================================================================== *)
+
+Lemma step_space : forall m ll line col p pk,
+  step m ll line col p 0 32 pk = Continue false None 0 (push_opt p).
+Proof. reflexivity. Qed.
+Lemma step_tab : forall m ll line col p pk,
+  step m ll line col p 0 9 pk = Continue false None 0 (push_opt p).
+Proof. reflexivity. Qed.
+Lemma step_open0 : forall m ll line col p,
+  step m ll line col p 0 47 (Some 42) = Continue true None 1 (push_opt p).
+Proof. reflexivity. Qed.
+Lemma step_dashdash : forall m ll line col p,
+  step m ll line col p 0 45 (Some 45) = Break.
+Proof. reflexivity. Qed.
+
+Lemma step_c_close : forall m ll line col p d, (1 <= d)%Z ->
+  step m ll line col p d 42 (Some 47) = Continue true p (d - 1)%Z [].
+Proof. intros. unfold step. replace (0 <? d)%Z with true by lia. reflexivity. Qed.
+
+Lemma step_c_open : forall m ll line col p d, (1 <= d)%Z -> (d < I32_MAX)%Z ->
+  step m ll line col p d 47 (Some 42) = Continue true p (d + 1)%Z [].
+Proof.
+  intros. unfold step, nest_incr. replace (0 <? d)%Z with true by lia.
+  replace (d =? I32_MAX)%Z with false by lia. reflexivity.
+Qed.
+
+Lemma step_c_char : forall m ll line col p d c pk, (1 <= d)%Z -> c <> 42 -> c <> 47 ->
+  is_none pk && ll = false ->
+  step m ll line col p d c pk = Continue false p d [].
+Proof.
+  intros m ll line col p d c pk Hd H42 H47 Hp. unfold step.
+  replace (0 <? d)%Z with true by lia.
+  replace (c =? 42) with false by lia. replace (c =? 47) with false by lia.
+  now rewrite Hp.
+Qed.
+
+Lemma sep_char_facts : forall c, is_sep_char c = true ->
+  c <> 10 /\ c <> 13 /\ c <> 45 /\ c <> 47 /\ c <> 42.
+Proof. intros c H. repeat split; intros ->; discriminate. Qed.
+
+Lemma merge_sep : forall p l c x,
+  merge p (Separator l c x) = (Some (Separator l c x), push_opt p).
+Proof. intros [[? ? ?|? ? ?]|] l0 c0 x; reflexivity. Qed.
+
+Lemma step_sep : forall m ll line col p c pk, is_sep_char c = true ->
+  step m ll line col p 0 c pk
+  = Continue false (Some (Separator (line + 1) (col + 1) c)) 0 (push_opt p).
+Proof.
+  intros m ll line col p c pk H. destruct (sep_char_facts c H) as (_ & _ & H45 & H47 & _).
+  unfold step. cbn [Z.ltb Z.compare Z.eqb andb].
+  replace (c =? 45) with false by lia. replace (c =? 47) with false by lia. cbn [andb].
+  rewrite H. now rewrite merge_sep.
+Qed.
+
+Lemma text_char_facts : forall c, text_char c = true ->
+  c <> 10 /\ c <> 13 /\ is_sep_char c = false /\ negb (is_control c) && negb (c =? 32) = true.
+Proof.
+  intros c H. unfold text_char in H.
+  apply andb_prop in H as [H H3]. pose proof H as H'. apply andb_prop in H as [H1 H2].
+  unfold is_control in H1.
+  repeat split; try (intros ->; discriminate); [|assumption].
+  now destruct (is_sep_char c).
+Qed.
+
+Definition not_text (p : option token) : Prop :=
+  match p with Some (Text _ _ _) => False | _ => True end.
+
+Lemma step_text_gen : forall m ll line col p c pk, text_char c = true ->
+  (c =? 45) && opt_eqb pk 45 = false -> (c =? 47) && opt_eqb pk 42 = false ->
+  step m ll line col p 0 c pk
+  = let (p', out) := merge p (Text (line + 1) (col + 1) [c]) in Continue false p' 0 out.
+Proof.
+  intros m ll line col p c pk H H1 H2. destruct (text_char_facts c H) as (_ & _ & Hs & Hc).
+  unfold step. cbn [Z.ltb Z.compare Z.eqb andb].
+  rewrite H1, H2, Hs, Hc. reflexivity.
+Qed.
+
+Lemma step_text_first : forall m ll line col p c pk, text_char c = true -> not_text p ->
+  (c =? 45) && opt_eqb pk 45 = false -> (c =? 47) && opt_eqb pk 42 = false ->
+  step m ll line col p 0 c pk
+  = Continue false (Some (Text (line + 1) (col + 1) [c])) 0 (push_opt p).
+Proof.
+  intros m ll line col p c pk H Hp H1 H2. rewrite step_text_gen by assumption.
+  destruct p as [[? ? ?|? ? ?]|]; [contradiction|reflexivity|reflexivity].
+Qed.
+
+Lemma step_text_more : forall m ll line col l0 c0 acc c pk, text_char c = true ->
+  (c =? 45) && opt_eqb pk 45 = false -> (c =? 47) && opt_eqb pk 42 = false ->
+  step m ll line col (Some (Text l0 c0 acc)) 0 c pk
+  = Continue false (Some (Text l0 c0 (acc ++ [c]))) 0 [].
+Proof. intros. now rewrite step_text_gen by assumption. Qed.
+
+(* ================================================================== *)
+(* Part 3b: gap items                                                  *)
+(* ================================================================== *)
+
+Definition out_if (b : bool) (p : option token) : list token := if b then push_opt p else [].
+Definition flush_if (b : bool) (p : option token) : option token := if b then None else p.
+
+Lemma out_if_compose : forall b1 b2 p,
+  out_if b1 p ++ out_if b2 (flush_if b1 p) = out_if (b1 || b2) p.
+Proof. intros [|] [|] p; cbn; try reflexivity; now rewrite app_nil_r. Qed.
+Lemma flush_if_compose : forall b1 b2 p,
+  flush_if b2 (flush_if b1 p) = flush_if (b1 || b2) p.
+Proof. intros [|] [|] p; reflexivity. Qed.
+Lemma out_if_push : forall b p, out_if b p ++ push_opt (flush_if b p) = push_opt p.
+Proof. intros [|] p; cbn; [now rewrite app_nil_r|reflexivity]. Qed.
+
+Lemma advance_app : forall lc a b, advance lc (a ++ b) = advance (advance lc a) b.
+Proof. intros. unfold advance. apply fold_left_app. Qed.
+
+Lemma advance_line : forall a lc, forallb lchar_ok a = true ->
+  advance lc a = (fst lc, snd lc + N.of_nat (length a)).
+Proof.
+  induction a as [|c a IH]; intros lc H.
+  - cbn. destruct lc; cbn. f_equal. lia.
+  - cbn [forallb] in H. apply andb_prop in H as [Hc Ha]. unfold lchar_ok in Hc.
+    change (advance lc (c :: a)) with (advance (adv1 lc c) a).
+    rewrite IH by assumption. rewrite adv1_other by lia. cbn [fst snd length]. f_equal. lia.
+Qed.
+
+(* body of a block comment *)
+Lemma body_cont : forall b d t, body_ok d b = true ->
+  is_none (peek (render_body b ++ 42 :: 47 :: t)) && is_last (render_body b ++ 42 :: 47 :: t) = false.
+Proof.
+  intros [|i b] d t H.
+  - cbn [render_body flat_map app]. now rewrite peek_cons by lia.
+  - cbn [render_body flat_map]. fold (render_body b). rewrite <- app_assoc.
+    destruct i as [c| | | |]; cbn [render_citem app].
+    + cbn [body_ok] in H. apply andb_prop in H as [Hc _]. unfold cchar_ok in Hc.
+      now rewrite peek_cons by lia.
+    + unfold is_last. rewrite split_nl. cbn [snd].
+      rewrite lines_of_cons_not_nil; [apply andb_false_r|].
+      intro E. symmetry in E. now apply app_cons_not_nil in E.
+    + unfold is_last. rewrite split_crnl. cbn [snd].
+      rewrite lines_of_cons_not_nil; [apply andb_false_r|].
+      intro E. symmetry in E. now apply app_cons_not_nil in E.
+    + now rewrite peek_cons by lia.
+    + now rewrite peek_cons by lia.
+Qed.
+
+Lemma scan_body : forall m b d lc p t, (1 <= d)%Z -> body_ok d b = true ->
+  Rlc m lc p d (render_body b ++ 42 :: 47 :: t)
+  = emit (out_if (has_nl b) p)
+         (Rlc m (advance lc (render_body b ++ [42; 47])) (flush_if (has_nl b) p) 0 t).
+Proof.
+  intros m. induction b as [|i b IH]; intros d lc p t Hd H.
+  - cbn [body_ok] in H. assert (d = 1%Z) by lia. subst d.
+    cbn [render_body flat_map app has_nl existsb out_if flush_if].
+    rewrite (Rlc_step2 m lc p 1%Z 42 47 t p 0%Z []); try lia.
+    + reflexivity.
+    + intros ll. now rewrite step_c_close.
+  - cbn [render_body flat_map]. fold (render_body b). rewrite <- !app_assoc.
+    rewrite advance_app.
+    destruct i as [c| | | |]; cbn [render_citem app body_ok] in *.
+    + apply andb_prop in H as [Hc Hb]. pose proof Hc as Hc'. unfold cchar_ok in Hc'.
+      rewrite (Rlc_step1 m lc p d c _ p d []); try lia.
+      * rewrite emit_nil. rewrite (IH d) by assumption. reflexivity.
+      * apply step_c_char; try lia. eapply body_cont; eassumption.
+    + rewrite Rlc_nl. rewrite (IH d) by assumption.
+      cbn [has_nl existsb is_cnl orb out_if flush_if].
+      destruct (has_nl b); cbn [out_if flush_if push_opt]; now rewrite emit_nil.
+    + rewrite Rlc_crnl. rewrite (IH d) by assumption.
+      cbn [has_nl existsb is_cnl orb out_if flush_if].
+      destruct (has_nl b); cbn [out_if flush_if push_opt]; now rewrite emit_nil.
+    + apply andb_prop in H as [Hc Hb].
+      rewrite (Rlc_step2 m lc p d 47 42 _ p (d + 1)%Z []); try lia.
+      * rewrite emit_nil. rewrite (IH (d + 1)%Z) by (assumption || lia). reflexivity.
+      * intros ll. apply step_c_open; lia.
+    + apply andb_prop in H as [Hc Hb].
+      rewrite (Rlc_step2 m lc p d 42 47 _ p (d - 1)%Z []); try lia.
+      * rewrite emit_nil. rewrite (IH (d - 1)%Z) by (assumption || lia). reflexivity.
+      * intros ll. apply step_c_close; lia.
+Qed.
+
+Lemma scan_gitem : forall m it lc p t, gitem_okb it = true ->
+  Rlc m lc p 0 (render_gitem it ++ t)
+  = emit (out_if (iflush it) p)
+         (Rlc m (advance lc (render_gitem it)) (flush_if (iflush it) p) 0 t).
+Proof.
+  intros m it lc p t H. destruct it as [| | | |c crlf|b]; cbn [render_gitem app iflush out_if flush_if].
+  - rewrite (Rlc_step1 m lc p 0%Z 32 t None 0%Z (push_opt p)); try lia; [reflexivity|apply step_space].
+  - rewrite (Rlc_step1 m lc p 0%Z 9 t None 0%Z (push_opt p)); try lia; [reflexivity|apply step_tab].
+  - now rewrite Rlc_crnl.
+  - now rewrite Rlc_nl.
+  - (* line comment: the rest of the line is skipped *)
+    cbn [gitem_okb] in H.
+    assert (E : Rlc m lc p 0 (45 :: 45 :: (c ++ (if crlf then [13; 10] else [10])) ++ t)
+                = emit (push_opt p) (Rlc m (fst lc + 1, 0) None 0 t)).
+    { unfold Rlc at 1.
+      replace (45 :: 45 :: (c ++ (if crlf then [13; 10] else [10])) ++ t)
+        with ((45 :: 45 :: c) ++ (if crlf then 13 :: 10 :: t else 10 :: t))
+        by (destruct crlf; cbn [app]; rewrite <- app_assoc; reflexivity).
+      rewrite split_app by (exact H).
+      replace (split_lines (if crlf then 13 :: 10 :: t else 10 :: t)) with (@nil N, lines_of t)
+        by (destruct crlf; reflexivity).
+      cbn [fst snd app]. rewrite app_nil_r. rewrite line_loop_cons. cbn [hd_error].
+      rewrite step_dashdash. cbn [fin app]. now rewrite lines_loop2_Rlc. }
+    rewrite E. f_equal. f_equal.
+    change (45 :: 45 :: c ++ (if crlf then [13; 10] else [10]))
+      with ((45 :: 45 :: c) ++ (if crlf then [13; 10] else [10])).
+    rewrite advance_app. rewrite (advance_line (45 :: 45 :: c)) by (exact H).
+    destruct crlf; reflexivity.
+  - (* block comment *)
+    cbn [gitem_okb] in H.
+    rewrite (Rlc_step2 m lc p 0%Z 47 42 _ None 1%Z (push_opt p)); try lia.
+    2:{ intros ll. apply step_open0. }
+    rewrite <- app_assoc. cbn [app].
+    rewrite (scan_body m b 1%Z) by (assumption || lia).
+    replace (out_if (has_nl b) None) with (@nil token) by (destruct (has_nl b); reflexivity).
+    replace (flush_if (has_nl b) None) with (@None token) by (destruct (has_nl b); reflexivity).
+    rewrite emit_nil. reflexivity.
+Qed.
+
+Lemma gflush_cons : forall it g, gflush (it :: g) = iflush it || gflush g.
+Proof. reflexivity. Qed.
+
+Lemma scan_gap : forall m g lc p t, gap_okb g = true ->
+  Rlc m lc p 0 (render_gap g ++ t)
+  = emit (out_if (gflush g) p)
+         (Rlc m (advance lc (render_gap g)) (flush_if (gflush g) p) 0 t).
+Proof.
+  intros m. induction g as [|it g IH]; intros lc p t H.
+  - cbn. now rewrite emit_nil.
+  - cbn [gap_okb forallb] in H. apply andb_prop in H as [Hi Hg].
+    cbn [render_gap flat_map]. fold (render_gap g). rewrite <- app_assoc.
+    rewrite scan_gitem by assumption. rewrite IH by assumption.
+    rewrite emit_emit. rewrite advance_app. rewrite gflush_cons.
+    now rewrite out_if_compose, flush_if_compose.
+Qed.
+
+(* ================================================================== *)
+(* Part 3c: text items                                                 *)
+(* ================================================================== *)
+
+(* every '-' of s is followed (in s ++ rest) by something else than '-', every '/' by something else than '*' *)
+Fixpoint follow_ok (s rest : list N) : bool :=
+  match s with
+  | [] => true
+  | c :: s' =>
+      negb ((c =? 45) && opt_eqb (hd_error (s' ++ rest)) 45)
+      && negb ((c =? 47) && opt_eqb (hd_error (s' ++ rest)) 42)
+      && follow_ok s' rest
+  end.
+
+Lemma follow_from_ok : forall s rest,
+  no_pair 45 45 s = true -> no_pair 47 42 s = true -> s <> [] -> last s 0 <> 45 ->
+  (last s 0 = 47 -> opt_eqb (hd_error rest) 42 = false) ->
+  follow_ok s rest = true.
+Proof.
+  induction s as [|c s IH]; intros rest H1 H2 Hne Hl Hr; [congruence|].
+  cbn [no_pair] in H1, H2. apply andb_prop in H1 as [H1 H1'], H2 as [H2 H2'].
+  cbn [follow_ok]. destruct s as [|c2 s].
+  - cbn [last app follow_ok] in *. rewrite andb_true_r.
+    apply andb_true_intro; split; apply negb_true_iff.
+    + replace (c =? 45) with false by lia. reflexivity.
+    + destruct (c =? 47) eqn:E; [|reflexivity]. apply N.eqb_eq in E. now rewrite Hr.
+  - cbn [hd_error app] in *. rewrite H1, H2. cbn [andb].
+    apply IH; try assumption; try discriminate.
+Qed.
+
+Lemma text_rest : forall m s acc lc l0 c0 t, forallb text_char s = true -> follow_ok s t = true ->
+  Rlc m lc (Some (Text l0 c0 acc)) 0 (s ++ t)
+  = Rlc m (advance lc s) (Some (Text l0 c0 (acc ++ s))) 0 t.
+Proof.
+  intros m. induction s as [|c s IH]; intros acc lc l0 c0 t H Hf.
+  - cbn. now rewrite app_nil_r.
+  - cbn [forallb] in H. apply andb_prop in H as [Hc Hs].
+    cbn [follow_ok] in Hf. apply andb_prop in Hf as [Hf Hf3]. apply andb_prop in Hf as [Hf1 Hf2].
+    apply negb_true_iff in Hf1, Hf2.
+    destruct (text_char_facts c Hc) as (H10 & H13 & _).
+    cbn [app].
+    rewrite (Rlc_step1 m lc _ 0%Z c (s ++ t) (Some (Text l0 c0 (acc ++ [c]))) 0%Z []); try assumption.
+    + rewrite emit_nil. rewrite IH by assumption. rewrite <- app_assoc. reflexivity.
+    + apply step_text_more; [assumption| |].
+      * destruct (c =? 45); [|reflexivity]. cbn [andb] in *.
+        destruct (opt_eqb (peek (s ++ t)) 45) eqn:E; [|reflexivity].
+        apply peek_sub in E. congruence.
+      * destruct (c =? 47); [|reflexivity]. cbn [andb] in *.
+        destruct (opt_eqb (peek (s ++ t)) 42) eqn:E; [|reflexivity].
+        apply peek_sub in E. congruence.
+Qed.
+
+Lemma scan_tok : forall m tk lc p t, tok_okb tk = true ->
+  (is_text tk = true -> not_text p) ->
+  (forall s, tk = PText s -> last s 0 = 47 -> opt_eqb (hd_error t) 42 = false) ->
+  Rlc m lc p 0 (render_tok tk ++ t)
+  = emit (push_opt p) (Rlc m (advance lc (render_tok tk)) (Some (mk_tok lc tk)) 0 t).
+Proof.
+  intros m [s|c] lc p t Hok Hp Hr; cbn [render_tok tok_okb mk_tok is_text] in *.
+  - unfold text_okb in Hok.
+    apply andb_prop in Hok as [Hok H5]. apply andb_prop in Hok as [Hok H4].
+    apply andb_prop in Hok as [Hok H3]. apply andb_prop in Hok as [H1 H2].
+    apply negb_true_iff in H5.
+    destruct s as [|c s]; [discriminate|].
+    assert (Hf : follow_ok (c :: s) t = true).
+    { apply follow_from_ok; try assumption; try discriminate; [lia|]. apply (Hr _ eq_refl). }
+    cbn [forallb] in H2. apply andb_prop in H2 as [Hc Hs].
+    cbn [follow_ok] in Hf. apply andb_prop in Hf as [Hf Hf3]. apply andb_prop in Hf as [Hf1 Hf2].
+    apply negb_true_iff in Hf1, Hf2.
+    destruct (text_char_facts c Hc) as (H10 & H13 & _).
+    cbn [app].
+    rewrite (Rlc_step1 m lc p 0%Z c (s ++ t) (Some (Text (fst lc + 1) (snd lc + 1) [c])) 0%Z (push_opt p));
+      try assumption.
+    + rewrite text_rest by assumption. reflexivity.
+    + apply step_text_first; [assumption|now apply Hp| |].
+      * destruct (c =? 45); [|reflexivity]. cbn [andb] in *.
+        destruct (opt_eqb (peek (s ++ t)) 45) eqn:E; [|reflexivity].
+        apply peek_sub in E. congruence.
+      * destruct (c =? 47); [|reflexivity]. cbn [andb] in *.
+        destruct (opt_eqb (peek (s ++ t)) 42) eqn:E; [|reflexivity].
+        apply peek_sub in E. congruence.
+  - destruct (sep_char_facts c Hok) as (H10 & H13 & _).
+    cbn [app].
+    rewrite (Rlc_step1 m lc p 0%Z c t (Some (Separator (fst lc + 1) (snd lc + 1) c)) 0%Z (push_opt p));
+      try assumption; [reflexivity|]. now apply step_sep.
+Qed.
+
+(* ================================================================== *)
+(* Part 3d: main induction over the token list                         *)
+(* ================================================================== *)
+
+Definition compat (p : option token) (ts : list ptoken) : Prop :=
+  match ts with t :: _ => is_text t = true -> not_text p | [] => True end.
+
+Lemma hd_gitem : forall it t, opt_eqb (hd_error (render_gitem it ++ t)) 42 = false.
+Proof. intros [| | | |c crlf|b] t; reflexivity. Qed.
+
+Lemma hd_after : forall g ts gs, forallb tok_okb ts = true ->
+  (g = [] -> match ts with t2 :: _ => is_text t2 = false | [] => True end) ->
+  opt_eqb (hd_error (render_gap g ++ render_items ts gs)) 42 = false.
+Proof.
+  intros [|it g] ts gs Hok Hg.
+  - cbn [render_gap flat_map app]. specialize (Hg eq_refl).
+    destruct ts as [|[s|c] ts]; [reflexivity|discriminate|].
+    destruct gs as [|g2 gs]; [reflexivity|].
+    cbn [forallb tok_okb] in Hok. apply andb_prop in Hok as [Hc _].
+    destruct (sep_char_facts c Hc) as (_ & _ & _ & _ & H42).
+    cbn. lia.
+  - cbn [render_gap flat_map]. rewrite <- app_assoc. apply hd_gitem.
+Qed.
+
+Lemma scan_items : forall m ts gs lc p,
+  length gs = length ts -> forallb tok_okb ts = true -> forallb gap_okb gs = true ->
+  forallb gflush (tt_gaps ts gs) = true -> compat p ts ->
+  Rlc m lc p 0 (render_items ts gs) = Ok (None, 0%Z, push_opt p ++ expect_items lc ts gs).
+Proof.
+  intros m. induction ts as [|t ts IH]; intros gs lc p Hlen Htok Hgap Hfl Hc.
+  - destruct gs; cbn [render_items expect_items]; rewrite Rlc_nil; now rewrite app_nil_r.
+  - destruct gs as [|g gs]; [discriminate|].
+    cbn [length] in Hlen. injection Hlen as Hlen.
+    cbn [forallb] in Htok, Hgap.
+    apply andb_prop in Htok as [Ht Hts]. apply andb_prop in Hgap as [Hg Hgs].
+    cbn [tt_gaps] in Hfl. rewrite forallb_app in Hfl. apply andb_prop in Hfl as [Hfl1 Hfl2].
+    cbn [render_items expect_items].
+    rewrite scan_tok; [|assumption|exact Hc|].
+    2:{ intros s -> _. apply hd_after; [assumption|]. intros ->.
+        destruct ts as [|t2 ts]; [exact I|]. cbn [is_text andb] in Hfl1.
+        destruct (is_text t2); [discriminate|reflexivity]. }
+    rewrite scan_gap by assumption.
+    rewrite (IH gs _ (flush_if (gflush g) (Some (mk_tok lc t)))); try assumption.
+    + cbn [emit]. rewrite !app_assoc. rewrite <- (app_assoc (push_opt p)).
+      rewrite out_if_push. rewrite <- app_assoc. reflexivity.
+    + destruct ts as [|t2 ts]; [exact I|]. cbn [compat]. intros Ht2. rewrite Ht2 in Hfl1.
+      destruct t as [s|c]; cbn [is_text andb forallb mk_tok] in *.
+      * rewrite andb_true_r in Hfl1. rewrite Hfl1. exact I.
+      * destruct (gflush g); exact I.
+Qed.
+
+Lemma gflush_nonempty : forall g, gflush g = negb (is_nil g).
+Proof. intros [|it g]; reflexivity. Qed.
+
+Lemma flush_from_safe : forall l,
+  forallb (fun g : gap => negb (is_nil g)) l = true -> forallb gflush l = true.
+Proof.
+  induction l as [|g l IH]; intros H; [reflexivity|].
+  cbn [forallb] in *. apply andb_prop in H as [Hg Hl].
+  rewrite gflush_nonempty, Hg. now apply IH.
+Qed.
+
+(* the whole tokenizer on a rendered layout *)
+Theorem tokenize_render : forall m ts gs, lex_safe ts gs ->
+  tokenize m (render ts gs) = Ok (expect ts gs).
+Proof.
+  intros m ts gs Hs. unfold lex_safe, lex_safeb in Hs.
+  apply andb_prop in Hs as [Hs Hne]. apply andb_prop in Hs as [Hs Hgap]. apply andb_prop in Hs as [Hlen Htok].
+  apply Nat.eqb_eq in Hlen.
+  destruct gs as [|g0 gs]; [discriminate|]. cbn [length tl] in *. injection Hlen as Hlen.
+  cbn [forallb] in Hgap. apply andb_prop in Hgap as [Hg0 Hgs].
+  rewrite tokenize_Rlc. unfold render, expect.
+  rewrite scan_gap by assumption.
+  replace (out_if (gflush g0) None) with (@nil token) by (destruct (gflush g0); reflexivity).
+  replace (flush_if (gflush g0) None) with (@None token) by (destruct (gflush g0); reflexivity).
+  rewrite emit_nil.
+  rewrite scan_items; try assumption.
+  - cbn. now rewrite app_nil_r.
+  - now apply flush_from_safe.
+  - destruct ts; cbn; auto.
+Qed.
+
+Lemma strip_expect : forall ts g, lex_safe ts g -> map strip (expect ts g) = ts.
+Proof.
+  intros ts [|g0 g] H; [discriminate|]. unfold lex_safe, lex_safeb in H.
+  apply andb_prop in H as [H _]. apply andb_prop in H as [H _]. apply andb_prop in H as [H _].
+  apply Nat.eqb_eq in H. cbn [length] in H. apply strip_expect_items. lia.
+Qed.
+
+Theorem layout_invariant : forall m ts g1 g2, lex_safe ts g1 -> lex_safe ts g2 ->
+  exists o1 o2, tokenize m (render ts g1) = Ok o1 /\ tokenize m (render ts g2) = Ok o2 /\
+                map strip o1 = ts /\ map strip o2 = map strip o1.
+Proof.
+  intros m ts g1 g2 H1 H2.
+  exists (expect ts g1), (expect ts g2).
+  rewrite !tokenize_render by assumption. repeat split.
+  - now apply strip_expect.
+  - now rewrite !strip_expect.
+Qed.
+
+Theorem locations : forall m ts g, lex_safe ts g ->
+  exists o, tokenize m (render ts g) = Ok o /\ map loc o = positions ts g.
+Proof.
+  intros m ts g H. exists (expect ts g). split; [now apply tokenize_render|].
+  destruct g as [|g0 g]; [reflexivity|]. apply loc_expect_items.
+Qed.
+
+(* ================================================================== *)
+(* Part 4: `positions` is the line/column of the items' offsets in the rendered text *)
+(* ================================================================== *)
+
+(* 1-based (line, column) of the character at offset off: line = 1 + number of LF before it,
+   column = 1 + number of characters since the last LF *)
+Definition pos_at (text : list N) (off : nat) : N * N :=
+  let lc := advance (0, 0) (firstn off text) in (fst lc + 1, snd lc + 1).
+
+Fixpoint offsets_items (n : nat) (ts : list ptoken) (gs : list gap) : list nat :=
+  match ts, gs with
+  | t :: ts', g :: gs' =>
+      n :: offsets_items (n + length (render_tok t) + length (render_gap g)) ts' gs'
+  | _, _ => []
+  end.
+Definition offsets (ts : list ptoken) (gs : list gap) : list nat :=
+  match gs with [] => [] | g0 :: gs' => offsets_items (length (render_gap g0)) ts gs' end.
+
+Lemma positions_items_at : forall ts gs pre,
+  positions_items (advance (0, 0) pre) ts gs
+  = map (pos_at (pre ++ render_items ts gs)) (offsets_items (length pre) ts gs).
+Proof.
+  induction ts as [|t ts IH]; intros [|g gs] pre; try reflexivity.
+  cbn [positions_items render_items offsets_items map]. f_equal.
+  - unfold pos_at. rewrite firstn_app, Nat.sub_diag, firstn_all, firstn_O, app_nil_r. reflexivity.
+  - rewrite <- !advance_app. rewrite (IH gs (pre ++ render_tok t ++ render_gap g)).
+    rewrite <- !app_assoc. rewrite !app_length, Nat.add_assoc. reflexivity.
+Qed.
+
+Lemma positions_at : forall ts gs,
+  positions ts gs = map (pos_at (render ts gs)) (offsets ts gs).
+Proof. intros ts [|g0 gs]; [reflexivity|]. apply positions_items_at. Qed.
+
+(* each offset is where the item's characters really are *)
+Lemma offsets_items_point : forall ts gs pre, length gs = length ts ->
+  Forall2 (fun off t => firstn (length (render_tok t)) (skipn off (pre ++ render_items ts gs)) = render_tok t)
+          (offsets_items (length pre) ts gs) ts.
+Proof.
+  induction ts as [|t ts IH]; intros [|g gs] pre Hl; try discriminate; [constructor|].
+  cbn [offsets_items render_items]. constructor.
+  - rewrite skipn_app, Nat.sub_diag, skipn_all. cbn [app skipn].
+    rewrite firstn_app, Nat.sub_diag, firstn_all, firstn_O, app_nil_r. reflexivity.
+  - specialize (IH gs (pre ++ render_tok t ++ render_gap g)).
+    rewrite <- !app_assoc in IH. rewrite !app_length, Nat.add_assoc in IH.
+    apply IH. cbn [length] in Hl. congruence.
+Qed.
